@@ -46,3 +46,10 @@ reg('C07', 'runtime monitoring: CPU-time budget and growth-ratio monitor over sy
     'independent of machine load.',
     'Trusted: time.thread_time()/ITIMER_VIRTUAL as cost measure; families derivable from valid constructs only; '
     'sub-exponential super-polynomial growth below the ratio threshold is out of reach.')
+reg('C08', 'runtime monitoring: exception sanitizer + CPU/step budgets at the query API boundary on hostile trees',
+    'Every query entry point (module level and compiled) is called on generated hostile HTML/XML trees (malformed, huge '
+    'and correlated type/min/max/value/dir/lang/... values, list-valued attributes, odd values on id/class/title/data-*, '
+    'detached and never-attached elements, foreign namespaces, non-Tag targets) inside an exception sanitizer: any '
+    'escaping exception other than TypeError for a non-Tag target, a 20 s CPU budget or (10% sample) a 5*10^6 line '
+    'budget is a violation. ~4*10^5 calls per quick run.',
+    'Trusted: the value-shape domain in ASSUMPTIONS; termination restated as CPU/step budgets.')
